@@ -3,6 +3,8 @@ package rules
 
 import (
 	"fmt"
+	"go/ast"
+	"go/token"
 	"go/types"
 	"sort"
 	"strings"
@@ -538,3 +540,12 @@ func ifaceMethods(c *core.Ctx, rule, ifaceSpec, glob string) []*types.Func {
 func mapOf(f *types.Func) map[*types.Func]bool { return map[*types.Func]bool{f: true} }
 
 func enclName(f *ssa.Function) string { return ens.SSAFuncName(topFunc(f)) }
+
+func fileOf(files []*ast.File, pos token.Pos) *ast.File {
+	for _, f := range files {
+		if f.Pos() <= pos && pos <= f.End() {
+			return f
+		}
+	}
+	return nil
+}
